@@ -62,3 +62,17 @@ Definition check_sampling (c : sampling_case) : bool :=
    | r0 :: _, p0 :: _ => if first_argmax && negb (forallb (Z.eqb 0) r0) then Nat.eqb p0 (argmax_first r0) else true
    | _, _ => true
    end).
+
+(* BatchBALD (greedy_selection=False): (n, mapping, candidate-space score vector per step as order keys - the rows batch_bald
+   returned, NaN at its own earlier picks -, noise of RandomState(0), noise of the strategy's generator per row, returned trace).
+   The recorded rows must be the rows of the internal loop (NaN exactly at the internal picks) and the returned indices / rows
+   must equal bald_trace. *)
+Definition bald_case := (nat * list nat * list (list val) * list Z * list (list Z) * list (nat * list val))%type.
+Definition check_bald (c : bald_case) : bool :=
+  let '(n, mapping, table, nzA, nzsB, t) := c in
+  let m := length mapping in
+  let k := length table in
+  let score := fun prev : list nat => nth (length prev) table [] in
+  list_eqb (list_eqb oz_eqb) (map snd (bald_internal m score k nzA)) table &&
+  forallb (fun ir => Nat.eqb (count_nonnan (snd ir)) (m - fst ir)) (combine (seq 0 k) table) &&
+  trace_eqb (bald_trace n m mapping score k nzA nzsB) t.
